@@ -9,6 +9,8 @@ from collections.abc import Iterable, Sequence
 from mailbox import Maildir, NoSuchMailboxError
 from typing import TypeAlias, TypeVar, Protocol
 
+from pymap.exceptions import NotSupportedError
+
 __all__ = ['MaildirLayout', 'DefaultLayout', 'FilesystemLayout']
 
 _Parts: TypeAlias = Sequence[str]
@@ -155,7 +157,17 @@ class _BaseLayout(MaildirLayout[_MaildirT], metaclass=ABCMeta):
     def _split(cls, name: str, delimiter: str) -> _Parts:
         if name == 'INBOX':
             return []
-        return name.split(delimiter)
+        parts = name.split(delimiter)
+        # Every part becomes (part of) a path component below the inbox
+        # path, so none may refer to a directory itself or to its parent. An
+        # empty name, or one starting with two delimiters, would make the
+        # '++' sub-directory '.' or '..', and an empty name is the inbox
+        # path itself in the 'fs' layout.
+        if not parts[0] and not any(parts[1:2]) \
+                or any(part in ('.', '..') or '\0' in part or os.sep in part
+                       for part in parts):
+            raise NotSupportedError('Invalid mailbox name.')
+        return parts
 
     @classmethod
     def _join(cls, parts: _Parts, delimiter: str) -> str:
